@@ -149,12 +149,12 @@ LITERAL = {
  'C01': "Literal specification (Props/C01d): fips_204_signatures_verify_as_written - carried through the crate by the three whole-function theorems, the round trip holds of the transcription of the standard itself: "
         "whenever Spec.keyGenInternal(xi) = (pk, sk) and Spec.signInternal(skDecode sk, M', rnd) = sigma, Spec.verifyInternal(pk, M', sigma) = true, for every seed, formatted message, rnd and oracle pair with SHAKE's prefix property.",
  'C02': "Literal specification (Props/C02c): verification_is_fips_204_algorithm_8_as_written - from the public-key bytes and the signature bytes, expand_public + verify_internal return exactly the Boolean of Spec.verifyInternal "
-        "(Algorithms 8, 21, 23, 27, 28, 29, 30, 32, 35-42 and Table 1 transcribed on explicit bit strings and XOF streams), for every input, both build modes. The transcription itself is executed on every run (driver operations spec_verify / spec_sign / spec_keygen) against the crate.",
+        "(Algorithms 8, 21, 23, 27, 28, 29, 30, 32, 35-42 and Table 1 transcribed on explicit bit strings and XOF streams), for every input, both build modes. The transcription itself is executed on every run (driver operations spec_verify / spec_sign / spec_keygen) against the crate. Props/C02d: verify and hash_verify are Algorithms 3 and 5 as written (Spec.verify / Spec.hashVerify: context rejection for every context length, M' formatting, OID / digest table), from the key bytes.",
  'C03': "Literal specification (Props/C03c, C03d): sign_internal_is_Sign_internal_as_written - for every accepted private-key byte string, message, context, pre-hash input and rnd, sign_internal on the struct expand_private built "
         "returns exactly the signature bytes Spec.signInternal (Algorithm 7 line by line, on Algorithms 25, 32, 34, 41, 42, 36-39, 29, 28, 26, 20) computes from the key bytes, within the 16-bit counter's range; expand_mask_is_ExpandMask "
-        "(uses that a shorter SHAKE256 request is a prefix of a longer one).",
+        "(uses that a shorter SHAKE256 request is a prefix of a longer one). Props/C03e: try_sign_with_rng and try_hash_sign_with_rng are Algorithms 2 and 4 as written (Spec.sign / Spec.hashSign) for every context length and every generator that delivers rnd.",
  'C04': "Literal specification (Props/C04c): keygen_is_algorithm_6_as_written - for every seed, key generation followed by serialisation returns the byte strings of Spec.keyGenInternal "
-        "(Algorithm 6 on Algorithms 30-33, 41, 42, 35, 22, 24, 16, 17 as transcribed), so the Lean specification no longer shares sampler or encoder code with the model.",
+        "(Algorithm 6 on Algorithms 30-33, 41, 42, 35, 22, 24, 16, 17 as transcribed), so the Lean specification no longer shares sampler or encoder code with the model. Props/C04d: try_keygen_with_rng is Algorithm 1 as written (Spec.keyGen).",
  'C08': "Literal specification (Props/C08c): bit_pack / bit_unpack / simple variants are Algorithms 16-19 on explicit bit strings, hint_bit_pack / hint_bit_unpack are Algorithms 20 / 21, sig_encode / sig_decode are Algorithms 26 / 27, for all inputs.",
  'C10': "Literal specification (Props/C10c): sk_decode returns Ok iff every coefficient of Algorithm 25's s1, s2 (Spec.skDecode on the bytes) lies in [-eta, eta], and then returns exactly Algorithm 25's tuple.",
 }
